@@ -152,6 +152,9 @@ F6Fixed == { Esc("w"), Esc("W"), Cat(<<Wb(FALSE), Dot>>), Cat(<<Dot, Wb(TRUE)>>)
              Cls(FALSE, <<IE("w")>>), Cls(TRUE, <<IE("w")>>), Cls(FALSE, <<IE("W")>>),
              Cls(TRUE, <<IE("W")>>), Star(Esc("w")), Cat(<<Grp(Esc("w")), Star(BRef(1))>>),
              Mod(<<"i">>, <<>>, Chr(cs)), Cat(<<Mod(<<>>, <<"i">>, Chr(cs)), Chr(ck)>>),
+             \* a backreference compared case-insensitively by a local modifier only (the executor folds with
+             \* the regex-wide unicode bit, not the ignoreCase bit)
+             Cat(<<Grp(Dot), Mod(<<"i">>, <<>>, BRef(1))>>), Cat(<<Grp(Dot), Mod(<<>>, <<"i">>, BRef(1))>>),
              \* boundaries and class escapes inside quantified groups (the optimizer copies loop bodies)
              Plus(Ncg(Cat(<<Wb(FALSE), Dot>>))), Rep(Ncg(Cat(<<Dot, Wb(TRUE)>>)), 2, 2, TRUE),
              Cat(<<Bol, Rep(Ncg(Cat(<<Wb(FALSE), Esc("w"), Wb(FALSE), Esc("W")>>)), 1, 2, TRUE), Eol>>),
